@@ -480,6 +480,9 @@ func genScenario(t *rapid.T) (scenario, stream, builtImage, int) {
 	v, reason := classify(sc.Type, sc.Docs, sc.Ignore != nil && *sc.Ignore)
 	if !bi.valid {
 		v, reason = mustNot, "shape:"+bi.shape
+		if strings.HasPrefix(bi.nested, "only-nested") {
+			reason = "shape:only-nested-package.yaml"
+		}
 	}
 	if sc.Verification && sc.Verified != "True" {
 		v, reason = mustNot, "unverified"
@@ -517,6 +520,16 @@ func TestVerifC15Install(t *testing.T) {
 		rec.Eval()
 		rec.Label("type:" + sc.Type)
 		rec.Label("shape:" + sc.Shape)
+		if bi.nested != "" {
+			rec.Label("nested:" + bi.nested)
+			if strings.HasPrefix(bi.nested, "only-nested") {
+				rec.Label("class:only-nested-package.yaml")
+			} else if bi.nestedBefore {
+				rec.Label("class:nested-package.yaml-before-root")
+			} else {
+				rec.Label("class:nested-package.yaml-not-before-root")
+			}
+		}
 		rec.Label("verdict:" + sc.Verdict + ":" + sc.Reason)
 		var ks []string
 		faulty := false
@@ -547,7 +560,7 @@ func TestVerifC15Install(t *testing.T) {
 			for _, d := range sc.Docs {
 				dk = append(dk, d.Kind)
 			}
-			key := strings.Join([]string{sc.Type, sc.Shape, strings.Join(dk, ","), sc.Reason, strings.Join(ks, ";"), sc.Neighbour}, "|")
+			key := strings.Join([]string{sc.Type, sc.Shape, bi.nested, strings.Join(dk, ","), sc.Reason, strings.Join(ks, ";"), sc.Neighbour}, "|")
 			rec.NonTrivial(key, func() any { return sc })
 		}
 		if viol != "" {
@@ -671,3 +684,51 @@ func TestVerifC15Pinned(t *testing.T) {
 }
 
 var _ = sort.Strings
+
+// TestVerifC15PinnedNested: only the ROOT package.yaml of the image is the
+// package stream; entries called package.yaml in sub-directories are not, where
+// ever they sit (plain table, no rapid).
+func TestVerifC15PinnedNested(t *testing.T) {
+	rec := verifkit.New(t, "C15", "pinned rows: nested package.yaml entries")
+	docs := pinnedDocs()
+	s := render(docs, true, true)
+	root := fileSpec{Name: streamFile, Data: s.Bytes}
+	other := decoyStream(tProvider)
+	rows := []struct {
+		name   string
+		layers []layerSpec
+		ti     int
+		valid  bool
+	}{
+		{"annotated-nested-valid-before-root", []layerSpec{{Annotation: "base", Files: []fileSpec{{Name: "examples/package.yaml", Data: other}, root}}}, 0, true},
+		{"annotated-nested-garbage-before-root", []layerSpec{{Annotation: "base", Files: []fileSpec{{Name: "a/b/package.yaml", Data: junk}, root}}}, 0, true},
+		{"plain-single-layer-nested-before-root", []layerSpec{{Files: []fileSpec{{Name: "examples/package.yaml", Data: other}, root}}}, 0, true},
+		{"plain-upper-layer-adds-nested", []layerSpec{{Files: []fileSpec{root}}, {Files: []fileSpec{{Name: "usr/share/charts/package.yaml", Data: other}}}}, 0, true},
+		{"plain-upper-layer-adds-nested-garbage", []layerSpec{{Files: []fileSpec{root}}, {Files: []fileSpec{{Name: "usr/share/charts/package.yaml", Data: junk}}}}, 0, true},
+		{"annotated-nested-after-root", []layerSpec{{Annotation: "base", Files: []fileSpec{root, {Name: "examples/package.yaml", Data: other}}}}, 0, true},
+		{"annotated-only-nested", []layerSpec{{Annotation: "base", Files: []fileSpec{{Name: "examples/package.yaml", Data: s.Bytes}}}}, 0, false},
+		{"plain-only-nested", []layerSpec{{Files: []fileSpec{{Name: "a/b/package.yaml", Data: s.Bytes}}}}, 0, false},
+	}
+	for _, row := range rows {
+		t.Run(row.name, func(t *testing.T) {
+			rec.Eval()
+			img, built := assemble(row.layers)
+			bi := builtImage{img: img, target: built[row.ti].digest, streamOff: built[row.ti].streamOff[streamFile], valid: row.valid, shape: row.name}
+			_, got, err, _ := measure(bi)
+			if row.valid && (err != nil || !bytes.Equal(got, s.Bytes)) {
+				t.Fatalf("C15 violated (pinned %s): ImageBackend hands the parser %d bytes (err=%v) that are not the image's root package.yaml (%d bytes)", row.name, len(got), err, len(s.Bytes))
+			}
+			if !row.valid && err == nil {
+				t.Fatalf("C15 violated (pinned %s): ImageBackend accepted an image without a root package.yaml", row.name)
+			}
+			v, reason := classify(tProvider, docs, false)
+			if !row.valid {
+				v, reason = mustNot, "shape:only-nested-package.yaml"
+			}
+			sc := scenario{Type: tProvider, RevName: "pkg-0a1b2c3d4e5f", Docs: docs, Shape: row.name, Steps: []step{{Kind: "healthy"}}, Verdict: v.String(), Reason: reason, Seed: 7}
+			if viol, _ := runScenario(sc, s, bi, rec); viol != "" {
+				t.Fatalf("C15 violated (pinned %s): %s", row.name, viol)
+			}
+		})
+	}
+}
